@@ -741,6 +741,9 @@ var injections = []injection{
 	{name: "yield-in-else-if-init", stmt: "if a > 5 {\n\t\ttr.Ev(1)\n\t} else if $YIELD{77}; a > 0 {\n\t\ttr.Ev(2)\n\t}"},
 	{name: "yield-in-go-statement-closure-call", stmt: "func() {\n\t\ttr.Ev(1)\n\t}()"},
 	{name: "yield-in-typeswitch-assign-rhs", stmt: "switch x := tr.Any(a).(type) {\n\tcase int:\n\t\t$YIELD{x}\n\tdefault:\n\t\t_ = x\n\t}"},
+	// the API function used as a value: every yield made through the value is invisible to the compiler
+	{name: "yield-function-value-called", stmt: "f := $YIELDFN{int}\n\tf(5)\n\ttr.Ev(1, a)"},
+	{name: "yield-function-value-passed-as-argument", stmt: "func(f func(int), v int) {\n\t\tf(v)\n\t\tf(v + 1)\n\t}($YIELDFN{int}, 6)"},
 	// the yield itself is the operand of defer: in the bare host it is the generator's ONLY yield
 	{name: "defer-yield-call", stmt: "defer $YIELD{5}\n\ttr.Ev(1, a)"},
 	{name: "defer-closure-yielding", stmt: "defer func() {\n\t\t$YIELD{6}\n\t}()\n\ttr.Ev(1, a)"},
